@@ -352,10 +352,29 @@ PROPS = collections.OrderedDict()
 PROPS['C01'] = P_('parsing is total', 'tok,arena', plan(G_COMMON_QUICK, G_COMMON_THOROUGH),
                   observable=None, internal=[], impl_checks=[chk_no_panic, chk_depth], limits=True,
                   special='scale_parse', crash_is_violation=True)
+def tok_strings(line, txt):
+    """A TK line reduced to what C03 is about: token kind and the strings it carries (spans replaced
+    by their bytes), without source ranges, offsets and length fields."""
+    out = []
+    for f in line.split(' '):
+        m = re.match(r'^i(\d+):(\d+)$', f)
+        if m:
+            o, n = int(m.group(1)), int(m.group(2))
+            out.append('s' + bytes(txt[o:o + n]).hex())
+        elif re.match(r'^\d+:\d+$', f) or re.match(r'^\d+$', f):
+            continue
+        else:
+            out.append(f)
+    return ' '.join(out)
+
+def res_kind_only(line, txt):
+    f = line.split(' ')
+    return ' '.join(f[:2])
+
 PROPS['C02'] = P_('well-formed ordered tree', 'arena', plan(G_COMMON_QUICK, G_COMMON_THOROUGH),
-                  observable=mk_obs(lambda d: d.structure()), internal=['N'], oracles=['C02.'], special='tree')
+                  observable=mk_obs(lambda d: d.structure()), internal=[], oracles=['C02.'], special='tree')
 PROPS['C03'] = P_('markup mirrors the logical structure', 'tok,arena', plan(G_COMMON_QUICK, G_COMMON_THOROUGH),
-                  observable=obs_reject_wellformed(lambda d: d.markup()), internal=['TK', 'TKRES'], special='markup')
+                  observable=obs_reject_wellformed(lambda d: d.markup()), internal=[('TK', tok_strings), ('TKRES', res_kind_only)], special='markup')
 PROPS['C04'] = P_('character data decoding', 'arena,ev',
                   plan(G_COMMON_QUICK[:2] + [['pieces-text', 2]], G_COMMON_THOROUGH[:3] + [['pieces-text', 4]]),
                   observable=mk_obs(lambda d: d.texts()), internal=['EV F'], special='pieces_text')
@@ -368,7 +387,7 @@ PROPS['C07'] = P_('entity reference = replacement text', 'arena', plan([['model'
                   observable=obs_entities(lambda d: d.content()), special='hoist')
 PROPS['C08'] = P_('ill-formed documents are rejected', 'tok,arena', plan(G_COMMON_QUICK, G_COMMON_THOROUGH),
                   observable=lambda di, dm, il, ml: (res_kind(res_line(il)) == 'ok', res_kind(res_line(ml)) == 'ok'),
-                  internal=['RES', 'TKRES'], special='illform')
+                  internal=['RES', 'TKRES'], tie_on_rejects=True, special='illform')
 PROPS['C09'] = P_('entity expansion is bounded', 'arena,ev', plan([['model', 1500, 30]], [['model', 20000, 30]]),
                   observable=obs_flag('EntityReferenceLoop'), internal=['EV L'], impl_checks=[chk_size_bound, chk_no_panic], special='entities',
                   crash_is_violation=True)
@@ -452,6 +471,9 @@ def run_property(pid, cfg, tier, seed, exe, chk, violations, broken, notes, repl
         txt = bytes.fromhex(info.get('text_hex', '')) if info else b''
         rk = res_kind(res_line(il))
         dist[rk] += 1
+        if rk == 'panic' and not cfg.get('crash_is_violation'):
+            notes.append(f'input {cid} made parse panic; skipped here, it is a C01/C09/C10 matter')
+            continue
         ml = model.get(cid)
         # implementation-only checks
         for f in cfg.get('impl_checks', ()):
@@ -479,10 +501,16 @@ def run_property(pid, cfg, tier, seed, exe, chk, violations, broken, notes, repl
                               case=info, impl=repr(a)[:600], model=repr(b)[:600], concrete=True)
         both_ok = res_kind(res_line(il)) == 'ok' and res_kind(res_line(ml)) == 'ok'
         for tags in cfg.get('internal', ()):
-            if tags not in ('RES', 'TKRES', 'TK') and not both_ok:
+            proj = None
+            if isinstance(tags, tuple):
+                tags, proj = tags
+            if not both_ok and not (cfg.get('tie_on_rejects') and tags in ('RES', 'TKRES', 'TK')):
                 continue
             a = [l for l in il if l.startswith(tags + ' ') or l == tags]
             b = [l for l in ml if l.startswith(tags + ' ') or l == tags]
+            if proj:
+                a = [proj(l, txt) for l in a]
+                b = [proj(l, txt) for l in b]
             if a != b:
                 k = 0
                 while k < len(a) and k < len(b) and a[k] == b[k]:
